@@ -124,3 +124,66 @@ M('c02-twin-star-copy', 'C02', CIRC, "        self._outputs = list(outputs)", " 
 M('c02-twin-validate-via-get-gate', 'C02', CIRC, "        check_gates_exist((label,), self)\n        self._outputs.append(label)", "        self.get_gate(label)\n        self._outputs.append(label)", None)
 M('c02-twin-balanced-writer', 'C02', 'cirbo/core/circuit/utils.py', "def order_list(",
   "def graft_gate(circuit, label, gate_type, operands):\n    from cirbo.core.circuit import gate as _g\n    for operand in operands:\n        circuit._add_user(operand, label)\n    circuit._gates[label] = _g.Gate(label, gate_type, operands)\n\n\ndef order_list(", None)
+
+# ---------------------------------------------------------------- C03
+RRG = 'cirbo/minimization/simplification/remove_redundant_gates.py'
+MUO = 'cirbo/minimization/simplification/merge_unary_operators.py'
+MDG = 'cirbo/minimization/simplification/merge_duplicate_gates.py'
+MEG = 'cirbo/minimization/simplification/merge_equivalent_gates.py'
+TRF = 'cirbo/core/circuit/transformer.py'
+CLEAN = 'cirbo/minimization/simplification/cleanup.py'
+M('c03-pure-closure-rename', 'C03', MUO, "            _new_circuit.emplace_gate(\n                label=_gate.label,\n                gate_type=_gate.gate_type,\n                operands=tuple(map(_remap_gate, _gate.operands)),\n            )",
+  "            circuit.mark_as_output(_gate.label)\n            _new_circuit.emplace_gate(\n                label=_gate.label,\n                gate_type=_gate.gate_type,\n                operands=tuple(map(_remap_gate, _gate.operands)),\n            )", 'C03.PURE')
+M('c03-pure-exposer', 'C03', MDG, "        # reorder inputs according to original order\n        _new_circuit.set_inputs(circuit.inputs)", "        circuit.outputs.sort()\n        _new_circuit.set_inputs(circuit.inputs)", 'C03.PURE')
+M('c03-pure-into-bench', 'C03', MEG, "    _gate_to_tt = circuit.get_gates_truth_table()", "    _gate_to_tt = circuit.into_bench().get_gates_truth_table()", 'C03.PURE')
+M('c03-fresh-return-arg', 'C03', RRG, "        _new_circuit.set_outputs(circuit.outputs)\n\n        return _new_circuit", "        _new_circuit.set_outputs(circuit.outputs)\n        if _new_circuit.size == circuit.size:\n            return circuit\n\n        return _new_circuit", 'C03.FRESH')
+M('c03-iface-sorted-outputs', 'C03', MDG, "_new_circuit.set_outputs(list(map(_get_gate_new_name, circuit.outputs)))", "_new_circuit.set_outputs(sorted(map(_get_gate_new_name, circuit.outputs)))", 'C03.IFACE')
+M('c03-iface-dedup-outputs', 'C03', MEG, "_new_circuit.set_outputs(list(map(_get_gate_new_name, circuit.outputs)))", "_new_circuit.set_outputs(list(dict.fromkeys(map(_get_gate_new_name, circuit.outputs))))", 'C03.IFACE')
+M('c03-iface-filter-outputs', 'C03', RRG, "_new_circuit.set_outputs(circuit.outputs)", "_new_circuit.set_outputs([o for o in circuit.outputs if _new_circuit.has_gate(o)][:1] + circuit.outputs[1:])", 'C03.IFACE')
+M('c03-iface-inputs-always-dropped', 'C03', RRG, "        if not self._allow_inputs_removal:\n            _new_circuit.add_inputs(", "        if self._allow_inputs_removal:\n            _new_circuit.add_inputs(", 'C03.IFACE')
+M('c03-iface-inputs-order', 'C03', MUO, "_new_circuit.set_inputs(circuit.inputs)", "_new_circuit.set_inputs(sorted(circuit.inputs))", 'C03.IFACE')
+M('c03-emit-type', 'C03', MEG, "            gate_type=_gate.gate_type,\n            operands=tuple(map(_get_gate_new_name, _gate.operands)),", "            gate_type=gate.AND if len(_gate.operands) > 2 else _gate.gate_type,\n            operands=tuple(map(_get_gate_new_name, _gate.operands)),", 'C03.EMIT')
+M('c03-emit-reversed', 'C03', MDG, "_operands = tuple(map(_get_gate_new_name, _gate.operands))", "_operands = tuple(map(_get_gate_new_name, reversed(_gate.operands)))", 'C03.EMIT')
+M('c03-emit-sorted-operands', 'C03', MUO, "operands=tuple(map(_remap_gate, _gate.operands)),", "operands=tuple(sorted(map(_remap_gate, _gate.operands))),", 'C03.EMIT')
+M('c03-sym-always-sort', 'C03', MDG, "            if _gate_type.is_symmetric:\n                _operands = tuple(sorted(_operands))", "            _operands = tuple(sorted(_operands))", 'C03.SYM')
+M('c03-unary-rnot-index', 'C03', MUO, "gate.RNOT: operator.itemgetter(1),", "gate.RNOT: operator.itemgetter(0),", 'C03.UNARY')
+M('c03-unary-family', 'C03', MUO, "                or _op_gate.gate_type == gate.NOT\n                or _op_gate.gate_type == gate.LNOT\n                or _op_gate.gate_type == gate.RNOT", "                or _op_gate.gate_type == gate.NOT\n                or _op_gate.gate_type == gate.LNOT\n                or _op_gate.gate_type == gate.RIFF", 'C03.UNARY')
+M('c03-twin-comprehension', 'C03', MDG, "_new_circuit.set_outputs(list(map(_get_gate_new_name, circuit.outputs)))", "_new_circuit.set_outputs([_get_gate_new_name(o) for o in circuit.outputs])", None)
+M('c03-twin-readonly', 'C03', MUO, "            _op_gate = circuit.get_gate(gate_label)\n", "            assert circuit.has_gate(gate_label)\n            _op_gate = circuit.get_gate(gate_label)\n", None)
+M('c03-twin-local-operands', 'C03', MEG, "        _new_circuit.emplace_gate(\n            label=_gate.label,\n            gate_type=_gate.gate_type,\n            operands=tuple(map(_get_gate_new_name, _gate.operands)),\n        )",
+  "        _ops = tuple(map(_get_gate_new_name, _gate.operands))\n        _new_circuit.emplace_gate(\n            label=_gate.label,\n            gate_type=_gate.gate_type,\n            operands=_ops,\n        )", None)
+
+# ---------------------------------------------------------------- C18
+M('c18-self-after-post', 'C18', TRF, "        yield self\n        if imply_deps:\n            yield from self.linearize_transformers(self._post_transformers)",
+  "        if imply_deps:\n            yield from self.linearize_transformers(self._post_transformers)\n        yield self", 'C18.LIN')
+M('c18-or-order', 'C18', TRF, "            return TransformerComposition(list(self.as_distinct()) + [other])", "            return TransformerComposition([other] + list(self.as_distinct()))", 'C18.LIN')
+M('c18-reduce-init', 'C18', TRF, "            Transformer.linearize_reduce_transformers(_transformers),\n            circuit,\n        )", "            Transformer.linearize_reduce_transformers(_transformers),\n            copy.copy(circuit).into_bench(),\n        )", 'C18.LIN')
+M('c18-composition-reversed', 'C18', TRF, "        self._transformers = list(transformers)", "        self._transformers = list(reversed(transformers))", 'C18.LIN')
+M('c18-cleanup-order', 'C18', CLEAN, "        RemoveRedundantGates(),\n        MergeUnaryOperators(),\n        MergeDuplicateGates(),", "        MergeUnaryOperators(),\n        MergeDuplicateGates(),", 'C18.LIN')
+M('c18-idem-eq', 'C18', RRG, "        return (\n            super().__eq__(other)\n            and self._allow_inputs_removal == other._allow_inputs_removal\n        )", "        return super().__eq__(other)", 'C18.IDEM')
+M('c18-idem-skip-nonidem', 'C18', TRF, "            if _cur.is_idempotent and _cur == _prev:", "            if _cur == _prev:", 'C18.IDEM')
+M('c18-idem-flag-muo', 'C18', MUO, "    def __init__(self):\n        super().__init__(post_transformers=(RemoveRedundantGates(),))", "    __idempotent__ = True\n\n    def __init__(self):\n        super().__init__(post_transformers=(RemoveRedundantGates(),))", 'C18.IDEM')
+M('c18-composition-eq', 'C18', TRF, "        # May be changed for smarter idempotent sequence reduction in the future.\n        return False", "        return type(self) == type(other)", 'C18.IDEM')
+M('c18-post-missing', 'C18', MDG, "        super().__init__(post_transformers=(RemoveRedundantGates(),))", "        super().__init__()", 'C18.POST')
+M('c18-rrg-from-inputs', 'C18', RRG, "            circuit.dfs(\n                circuit.outputs,\n                on_exit_hook=_on_exit_hook_impl,", "            circuit.dfs(\n                circuit.inputs,\n                inverse=True,\n                on_exit_hook=_on_exit_hook_impl,", 'C18.RRG')
+M('c18-rrg-unvisited', 'C18', RRG, "                on_exit_hook=_on_exit_hook_impl,\n            )", "                on_exit_hook=_on_exit_hook_impl,\n                unvisited_hook=_on_exit_hook_impl,\n            )", 'C18.RRG')
+M('c18-twin-rename', 'C18', TRF, "        for t in transformers:\n            yield from t.as_distinct(imply_deps=True)", "        for tr_ in transformers:\n            yield from tr_.as_distinct(imply_deps=True)", None)
+
+# ---------------------------------------------------------------- C10
+M('c10-pure-rename-other', 'C10', CIRC, "        copy_order_self_inputs = list(self._inputs)\n", "        copy_order_self_inputs = list(self._inputs)\n        other.order_outputs(other_connectors[:0])\n", 'C10.PURE')
+M('c10-pure-blocks', 'C10', CIRC, "        for block in other.blocks.values():\n            new_block_name = prefix + block.name", "        for block in other.blocks.values():\n            block._rename_gate(block.name, prefix + block.name)\n            new_block_name = prefix + block.name", 'C10.PURE')
+M('c10-iface-swap-outputs', 'C10', CIRC, "            [output for output in self._outputs if output not in this_connectors]\n            + [\n                old_to_new_names[output]\n                for output in other.outputs\n                if output not in other_connectors\n            ]",
+  "            [\n                old_to_new_names[output]\n                for output in other.outputs\n                if output not in other_connectors\n            ]\n            + [output for output in self._outputs if output not in this_connectors]", 'C10.IFACE')
+M('c10-iface-keep-connector-outputs', 'C10', CIRC, "                for output in other.outputs\n                if output not in other_connectors\n            ]\n        )", "                for output in other.outputs\n            ]\n        )", 'C10.IFACE')
+M('c10-iface-inputs-live-order', 'C10', CIRC, "                for _input in copy_order_self_inputs\n", "                for _input in self._inputs\n", 'C10.IFACE')
+M('c10-emit-unmapped-operands', 'C10', CIRC, "                    operands=tuple(\n                        old_to_new_names[operand] for operand in cur_gate.operands\n                    ),\n                )\n                if cur_gate.gate_type != gate.INPUT:\n                    gates_for_block.add(new_label)",
+  "                    operands=tuple(\n                        mapping.get(operand, prefix + operand) for operand in reversed(cur_gate.operands)\n                    ),\n                )\n                if cur_gate.gate_type != gate.INPUT:\n                    gates_for_block.add(new_label)", 'C10.EMIT')
+M('c10-emit-type', 'C10', CIRC, "                    label=new_label,\n                    gate_type=cur_gate.gate_type,", "                    label=new_label,\n                    gate_type=gate.IFF if len(cur_gate.operands) == 1 else cur_gate.gate_type,", 'C10.EMIT')
+M('c10-wrap-left-right', 'C10', CIRC, "            this_connectors,\n            other.inputs,\n            right_connect=False,", "            this_connectors,\n            other.inputs,\n            right_connect=True,", 'C10.WRAP')
+M('c10-wrap-connect-right-outputs', 'C10', CIRC, "            other,\n            self.inputs,\n            other_connectors,\n            right_connect=True,", "            other,\n            self.outputs,\n            other_connectors,\n            right_connect=True,", 'C10.WRAP')
+M('c10-wrap-extend-defaults', 'C10', CIRC, "            this_connectors = self.inputs if right_connect else self.outputs", "            this_connectors = self.outputs if right_connect else self.inputs", 'C10.WRAP')
+M('c10-uniq-dropped', 'C10', CIRC, "        else:\n            if len(other_connectors) != len(set(other_connectors)):\n                raise CreateBlockError()\n", "", 'C10.UNIQ')
+M('c10-block-connectors', 'C10', CIRC, "                    if cur_gate.gate_type != gate.INPUT:\n                        gates_for_block.add(connector_label)\n", "", 'C10.BLOCK')
+M('c10-block-outputs-unmapped', 'C10', CIRC, "                outputs=[old_to_new_names[_output] for _output in other.outputs],\n            )\n\n            self._blocks[new_block.name]", "                outputs=[prefix + _output for _output in other.outputs],\n            )\n\n            self._blocks[new_block.name]", 'C10.BLOCK')
+M('c10-input-validation', 'C10', CIRC, "            for gate_label in this_connectors:\n                if self.get_gate(gate_label).gate_type != gate.INPUT:\n                    raise CreateBlockError()", "            pass", 'C10.UNIQ')
+M('c10-twin-kw', 'C10', CIRC, "        return self.connect_circuit(\n            other,\n            self.inputs,\n            other.inputs,\n            right_connect=True,", "        return self.connect_circuit(\n            other=other,\n            this_connectors=self.inputs,\n            other_connectors=other.inputs,\n            right_connect=True,", None)
